@@ -242,7 +242,7 @@ def output_fingerprints(out: OutputBuffer, algs: Algorithms, is_json_output: boo
         if algs.ssh2kex is not None:
             host_keys = algs.ssh2kex.host_keys()
             for host_key_type in algs.ssh2kex.host_keys():
-                if host_keys[host_key_type] is None:
+                if host_keys[host_key_type] is None or len(cast(bytes, host_keys[host_key_type]['raw_hostkey_bytes'])) == 0:  # No key was received for this type (its probe went unanswered), so there is nothing to fingerprint.
                     continue
 
                 fp = Fingerprint(cast(bytes, host_keys[host_key_type]['raw_hostkey_bytes']))
@@ -1137,7 +1137,7 @@ def build_struct(target_host: str, banner: Optional['Banner'], kex: Optional['SS
                 host_keys['ssh-rsa'] = val
 
         for host_key_type in sorted(host_keys):
-            if host_keys[host_key_type] is None:
+            if host_keys[host_key_type] is None or len(cast(bytes, host_keys[host_key_type]['raw_hostkey_bytes'])) == 0:  # No key was received for this type (its probe went unanswered), so there is nothing to fingerprint.
                 continue
 
             fp = Fingerprint(cast(bytes, host_keys[host_key_type]['raw_hostkey_bytes']))
